@@ -112,6 +112,33 @@ def mut_field(body, field):
 OPTIONAL = {"mark_dirty_abs", "write_to_mmap", "regions_write_at", "regions_flush"}
 
 
+# fields that rules name (who-may-write tables, slices that look for `.start` / `.bytes`, drop order): the rule tables
+# are configured with these names, exactly like a lint configured with function names.  If one of them no longer
+# exists the tables are out of date - that is reported as such (exit 2), never as a property violation.
+NAMED_FIELDS = {
+    "rawdb::layout::Layout": ["start_to_region", "start_to_hole", "hole_to_starts", "start_to_reserved", "pending_holes"],
+    "rawdb::DatabaseInner": ["regions", "file"],
+    "vecdb::base::change::cursor::ChangeCursor": ["bytes", "pos"],
+    "vecdb::base::header::inner::HeaderInner": ["vec_version", "computed_version", "stamp"],
+    "vecdb::variants::compressed::inner::page::Page": ["start", "bytes"],
+    "vecdb::variants::compressed::inner::pages::Pages": ["vec"],
+}
+
+
+def require_fields(P):
+    for adt, fields in NAMED_FIELDS.items():
+        a = P.adts.get(adt)
+        if a is None:
+            if adt.startswith("vecdb::variants::compressed") and not any(b.startswith("vecdb::variants::compressed") for b in P.bodies):
+                continue    # feature configuration without compressed variants
+            raise AnchorMissing("type %s named by the rule tables not found" % adt)
+        have = {f["name"] for f in a["variants"][0]["fields"]}
+        miss = [f for f in fields if f not in have]
+        if miss:
+            raise AnchorMissing("field(s) %s of %s named by the rule tables no longer exist (renamed?): update "
+                                "props/anchors.py NAMED_FIELDS and the rules that use them" % (miss, adt))
+
+
 def check(ctx, chk, keys):
     O, P, L = ctx.O, ctx.P, ctx.L
     for k in keys:
